@@ -54,7 +54,14 @@ let predef_of_string (s : string) : predef =
             else
               List.fold_left (fun m e ->
                   match split_on '=' e with
-                  | [i; nm] -> nmap_insert (n_of_int (int_of_string i)) (bytes_of_hex nm) m
+                  | [i; nm] ->
+                    (* "lo-hi=name": the same name for a whole range of IDs *)
+                    (match split_on '-' i with
+                     | [lo; hi] ->
+                       let nb = bytes_of_hex nm in
+                       let r = ref m in
+                       for k = int_of_string lo to int_of_string hi do r := nmap_insert (n_of_int k) nb !r done; !r
+                     | _ -> nmap_insert (n_of_int (int_of_string i)) (bytes_of_hex nm) m)
                   | _ -> failwith ("bad predef entry " ^ e))
                 nmap_empty (split_on ',' es)
           in
